@@ -56,6 +56,7 @@ type Ctx struct {
 	kfs        []KnownFinding
 	tlcSeq     int
 	distinct   map[string]bool
+	reported   map[string]bool
 }
 
 func NewCtx(id, tier string, seed int64) *Ctx {
@@ -415,6 +416,20 @@ func (c *Ctx) loadKnownFindings() {
 	}
 }
 
+// firstFor returns true the first time it is called with this subject (one report per grammar).
+func (c *Ctx) firstFor(subject string) bool {
+	c.mu.Lock()
+	defer c.mu.Unlock()
+	if c.reported == nil {
+		c.reported = map[string]bool{}
+	}
+	if c.reported[subject] {
+		return false
+	}
+	c.reported[subject] = true
+	return true
+}
+
 // Violation reports a violation that has been reproduced on the real code.
 // A case listed as a known finding is printed as KNOWN-FINDING instead.
 func (c *Ctx) Violation(r Replay) {
@@ -509,3 +524,5 @@ func replayFile(path string) int {
 	c.cleanup()
 	return code
 }
+
+func jsonUnmarshal(b []byte, v any) error { return json.Unmarshal(b, v) }
